@@ -15,6 +15,7 @@ import (
 	"github.com/form3tech-oss/f1/v2/internal/metrics"
 	"github.com/form3tech-oss/f1/v2/internal/options"
 	"github.com/form3tech-oss/f1/v2/internal/verifharness/hlib"
+	"github.com/form3tech-oss/f1/v2/internal/verifshim/vctx"
 	"github.com/form3tech-oss/f1/v2/internal/verifshim/vrt"
 	"github.com/form3tech-oss/f1/v2/internal/verifshim/vtime"
 	f1testing "github.com/form3tech-oss/f1/v2/pkg/f1/testing"
@@ -267,11 +268,69 @@ func suite(reps int, maxRuns int) hlib.Suite {
 	}}
 }
 
+// builtFirstSuite: two runs on one metrics instance that are both constructed before
+// either is executed. After each Do the export mirrors that run alone.
+func builtFirstSuite() hlib.Suite {
+	return hlib.Suite{Name: "two-runs-constructed-before-either-executes", Run: func(r *hlib.Rec) {
+		for _, its := range [][2]uint64{{3, 2}, {1, 4}} {
+			r.Eval()
+			input := fmt.Sprintf("run A (%d iterations) and run B (%d iterations) are built with NewRun, then A.Do, then B.Do, one metrics instance", its[0], its[1])
+			r.SampleCase(input)
+			reg := prometheus.NewRegistry()
+			m := metrics.NewInstance(reg, true, nil)
+			type obs struct {
+				iter  uint64
+				setup uint64
+			}
+			var seen []obs
+			out := vrt.RunDefault(func() {
+				var built []*hlib.Built
+				for _, n := range its {
+					rs := &hlib.RunSpec{Mode: "constant", Quiet: true, Metrics: m, CompletionTimeout: time.Second,
+						Flags: map[string]string{"rate": "1/100ms", "distribution": "none"},
+						Opts:  options.RunOptions{MaxDuration: 10 * time.Second, Concurrency: 1, MaxIterations: n, IgnoreDropped: true}}
+					rs.ScenarioFn = func(*f1testing.T) f1testing.RunFn { return func(*f1testing.T) {} }
+					b, err := rs.Build()
+					if err != nil {
+						panic(err)
+					}
+					built = append(built, b)
+				}
+				for _, b := range built {
+					if _, err := b.Run.Do(vctx.Background()); err != nil {
+						panic(err)
+					}
+					var o obs
+					for _, s := range gather(reg, "form3_loadtest_iteration") {
+						if s.labels["stage"] == "iteration" {
+							o.iter += s.count
+						}
+					}
+					for _, s := range gather(reg, "form3_loadtest_setup") {
+						o.setup += s.count
+					}
+					seen = append(seen, o)
+				}
+			}, 60*time.Second, 0)
+			if out.Status != vrt.StOK || len(seen) != 2 {
+				r.Fail("C16/run-broken", "built-first", out.Status.String()+": "+out.Crash+out.Detail, input)
+				continue
+			}
+			for i, o := range seen {
+				if o.iter != its[i] || o.setup != 1 {
+					r.Fail("C16/iteration-counts", "earlier-run-mixed-in/built-first", fmt.Sprintf("after run %d: %d iteration samples and %d setup samples exported, the run made %d iterations and one setup", i+1, o.iter, o.setup, its[i]), input)
+				}
+			}
+			r.Distinct(input)
+		}
+	}}
+}
+
 func suites(tier string) []hlib.Suite {
 	if tier == "quick" {
-		return []hlib.Suite{suite(8, 3)}
+		return []hlib.Suite{suite(8, 3), builtFirstSuite()}
 	}
-	return []hlib.Suite{suite(64, 3)}
+	return []hlib.Suite{suite(64, 3), builtFirstSuite()}
 }
 
 func main() { hlib.EnumMain("C16", suites) }
